@@ -41,7 +41,7 @@ def bounds(tier, seed):
         "levels": ["steps (SVBackend._run_from_sequence_data)", "evolve (one EvolveStateVector step, input state differentiable)", "pulser (SVBackend(seq).run())"],
         "N": [1, 2] + ([3] if tier == "thorough" else []),
         "step_values": ["generic", "phi=0", "Omega=0 on one atom", "equal neighbouring steps", "zero interaction"],
-        "pulser_sequences": ["const+ramp", "blackman+const", "blackman of odd duration (symmetric peak on a sample)", "ramp-to-zero+const", "two pulses with phases"],
+        "pulser_sequences": ["const+ramp", "blackman+const", "blackman of odd duration (symmetric peak on a sample)", "ramp-to-zero+const", "two pulses with phases", "two local channels with independent but exactly equal parameters"],
         "losses": LOSSES,
     }
 
@@ -54,7 +54,7 @@ def cases(tier, seed):
         for vals in ("generic", "phi0", "omega0", "nointer"):
             for loss in ("overlap", "occupation"):
                 yield {"level": "evolve", "n": n, "values": vals, "loss": loss, "seed": seed}
-        for kind in ("const_ramp", "blackman", "blackman_odd", "ramp_zero", "two_pulses"):
+        for kind in ("const_ramp", "blackman", "blackman_odd", "ramp_zero", "two_pulses") + (("local_equal",) if n >= 2 else ()):
             for loss in LOSSES:
                 yield {"level": "pulser", "n": n, "values": kind, "loss": loss, "seed": seed}
 
@@ -190,8 +190,16 @@ def _pulser_seq(params, case):
     p = params["p"]
     reg = Register({f"q{i}": [7.0 * i, 0.0] for i in range(n)})
     seq = Sequence(reg, MockDevice)
-    seq.declare_channel("ch", "rydberg_global")
     kind = case["values"]
+    if kind == "local_equal":
+        # two atoms driven through their own local channels by INDEPENDENT parameters that happen to hold exactly equal values
+        # (the symmetric start of an optimisation): the samples of the two atoms are equal, their gradients are not shared
+        seq.declare_channel("l0", "rydberg_local", initial_target="q0")
+        seq.declare_channel("l1", "rydberg_local", initial_target="q1")
+        seq.add(Pulse(ConstantWaveform(40, p[0]), ConstantWaveform(40, p[1]), p[3]), "l0")
+        seq.add(Pulse(ConstantWaveform(40, p[2]), ConstantWaveform(40, p[4]), p[3]), "l1", protocol="no-delay")
+        return seq
+    seq.declare_channel("ch", "rydberg_global")
     if kind == "const_ramp":
         seq.add(Pulse(ConstantWaveform(40, p[0]), RampWaveform(40, p[1], p[2]), p[3]), "ch")
     elif kind == "blackman":
@@ -221,7 +229,7 @@ def _pulser_forward(params, case):
 def _pulser_params(case):
     import torch
 
-    base = {"const_ramp": [5.0, -3.0, 4.0, 0.4, 0.0], "blackman": [1.6, 2.0, 0.0, 0.3, 0.0], "blackman_odd": [1.6, 2.0, 0.0, 0.3, 0.0], "ramp_zero": [8.0, -2.0, 0.0, 0.0, 0.0], "two_pulses": [6.0, 1.5, 3.0, 0.7, -2.5]}[case["values"]]
+    base = {"const_ramp": [5.0, -3.0, 4.0, 0.4, 0.0], "blackman": [1.6, 2.0, 0.0, 0.3, 0.0], "blackman_odd": [1.6, 2.0, 0.0, 0.3, 0.0], "ramp_zero": [8.0, -2.0, 0.0, 0.0, 0.0], "two_pulses": [6.0, 1.5, 3.0, 0.7, -2.5], "local_equal": [5.0, -2.0, 5.0, 0.4, -2.0]}[case["values"]]
     return {"p": torch.tensor(base, dtype=torch.float64)}
 
 
@@ -289,7 +297,7 @@ def run_case(case):
     fwd = {"steps": _steps_forward, "evolve": _evolve_forward, "pulser": _pulser_forward}[case["level"]]
     params = _pulser_params(case) if case["level"] == "pulser" else _steps_params(case)
     label = " ".join(f"{k}={v}" for k, v in case.items() if k != "seed")
-    used = {"const_ramp": [0, 1, 2, 3], "blackman": [0, 1, 3], "blackman_odd": [0, 1, 3], "ramp_zero": [0, 1], "two_pulses": [0, 1, 2, 3, 4]}
+    used = {"const_ramp": [0, 1, 2, 3], "blackman": [0, 1, 3], "blackman_odd": [0, 1, 3], "ramp_zero": [0, 1], "two_pulses": [0, 1, 2, 3, 4], "local_equal": [0, 1, 2, 3, 4]}
     leaves = {k: v.clone().requires_grad_(True) for k, v in params.items()}
     transitions = 0
     try:
